@@ -73,7 +73,7 @@ def guards():
     r10 = dict(N1=3, N2=2, MaxLev=2, MaxFine=1, W=2, Barrier="TRUE")
     add("C10 repaired", mc("MC_C10", r10, ["FinalIsCover", "LevelsSequential"]), None)
     add("C10 no level barrier", mc("MC_C10", dict(r10, Barrier="FALSE"), ["FinalIsCover"]), "FinalIsCover")
-    r11 = dict(MaxLev=1, MaxBox=3, MaxFile=2, W=2, SchedMode='"fifo"', NamesOrder='"kept_first"', MapOrder='"disk"')
+    r11 = dict(MaxLev=1, MaxBox=3, MaxFile=2, W=2, SchedMode='"fifo"', NamesOrder='"kept_first"', MapOrder='"disk"', NNewSet="{1,2}")
     add("C11 repaired", mc("MC_C11", r11, ["CookRefines"], N3), None)
     add("C11 new names first", mc("MC_C11", dict(r11, NamesOrder='"new_first"'), ["CookRefines"], N3), "CookRefines")
     add("C11 header-order offset map", mc("MC_C11", dict(r11, MapOrder='"header"'), ["CookRefines"], N3), "CookRefines")
